@@ -246,10 +246,10 @@ pub fn gen_timeline(r: &mut Rng, shape: &str, exact: bool, tame: bool) -> GenTl 
     let easing = if r.chance(1, 4) { None } else { Some(easing_tok(r, !exact)) };
     let mut nkf = match r.below(10) { 0 => 0, 1 => 1, 2 | 3 => 2, 4 | 5 => 3, 6 => 4, 7 => 5, 8 => 6, _ => 8 } as usize;
     let mut lattice: Vec<f32> = pos_pool(r, exact);
-    // one timeline in sixteen is long (up to 40 keyframes, none guaranteed at 0% or 100%): size-dependent code paths
+    // one timeline in sixteen is long (up to 100 keyframes, none guaranteed at 0% or 100%): size-dependent code paths
     // (a different search above some length, small-vector spill-over, counters) only show there
     if r.chance(1, 16) {
-        nkf = r.pick(&[9usize, 12, 16, 17, 24, 32, 33, 40]);
+        nkf = r.pick(&[9usize, 12, 16, 17, 24, 32, 33, 40, 64, 65, 100]);
         while lattice.len() < nkf + 4 {
             let p = if exact { r.below(1025) as f32 / 1024.0 } else { r.unit_f32() };
             if p > 0.0 && p < 1.0 && !lattice.contains(&p) { lattice.push(p); }
